@@ -261,6 +261,7 @@ fn show_stat<St: yash_env::system::Stat>(st: &St) -> String {
     match st.r#type() {
         FileType::Regular => format!("=reg:{mode:o}:{}", st.size()),
         FileType::Directory => format!("=dir:{mode:o}"),
+        FileType::Fifo => "=fifo".to_string(),
         _ => format!("=other:{mode:o}"),
     }
 }
@@ -278,7 +279,20 @@ fn show_access(a: OfdAccess) -> &'static str {
 /// `cwd=… umask=…`).  `root` is the absolute path of the scratch root as this system sees it.
 fn run_ops<S>(sys: &S, root: &str, limit: u64, ops: &[&str]) -> (Vec<String>, String, String)
 where
-    S: Open + Read + Write + Seek + Dup + Close + Fcntl + Fstat + Chdir + GetCwd + Umask + SetRlimit,
+    S: Open
+        + Read
+        + Write
+        + Seek
+        + Dup
+        + Close
+        + Fcntl
+        + Fstat
+        + Chdir
+        + GetCwd
+        + Umask
+        + SetRlimit
+        + yash_env::system::Pipe
+        + yash_env::system::resource::GetRlimit,
 {
     let cstr = |p: &str| CString::new(p).unwrap();
     let cwd_rel = |sys: &S| -> Option<Vec<String>> {
@@ -376,9 +390,9 @@ where
                         };
                         match pos {
                             // SeekFrom::Start cannot express a negative offset; lseek(fd, -n, SEEK_SET) is EINVAL
-                            None => match sys.fcntl_getfd(fd) {
+                            None => match sys.lseek(fd, SeekFrom::Current(0)) {
                                 Ok(_) => "EINVAL".to_string(),
-                                Err(e) => errno_name(e),
+                                Err(e) => errno_name(e), // EBADF, ESPIPE
                             },
                             Some(p) => match sys.lseek(fd, p) {
                                 Ok(n) => format!("={n}"),
@@ -468,6 +482,26 @@ where
                 }
             }
             ["cwd"] => format!("={}", cwd_show(sys)),
+            // a pipe, both ends switched to non-blocking mode at once (a blocking read would hang the real leg)
+            ["pipe"] => match sys.pipe() {
+                Ok((r, w)) => {
+                    let _ = sys.get_and_set_nonblocking(r, true);
+                    let _ = sys.get_and_set_nonblocking(w, true);
+                    format!("={},{}", r.0, w.0)
+                }
+                Err(e) => errno_name(e),
+            },
+            ["nb", _] => match fdarg(1) {
+                Some(fd) => match sys.get_and_set_nonblocking(fd, true) {
+                    Ok(b) => format!("={}", b as u8),
+                    Err(e) => errno_name(e),
+                },
+                None => "?".into(),
+            },
+            ["rlim"] => match sys.getrlimit(Resource::NOFILE) {
+                Ok(l) => format!("={}", l.soft),
+                Err(e) => errno_name(e),
+            },
             ["acc", _] => match fdarg(1) {
                 Some(fd) => match sys.ofd_access(fd) {
                     Ok(a) => format!("={}", show_access(a)),
@@ -530,11 +564,11 @@ static REAL_PROC_CHILDREN: std::sync::atomic::AtomicUsize = std::sync::atomic::A
 
 /// How a forked real-leg child leaves.  Normally `_exit` (nothing of the harness's own state is
 /// flushed twice).  In a coverage-instrumented run (`LLVM_PROFILE_FILE` set by tools/coverage.py) the
-/// first 400 children of each real leg leave through `exit`, so that the profile runtime's atexit hook writes their
+/// first 200 children of each real leg leave through `exit`, so that the profile runtime's atexit hook writes their
 /// counters: otherwise everything the real leg executes (real.rs, real/*.rs) would be invisible to
 /// the coverage measurement.  One profile file per such child, hence the cap.
 fn leave_child(ordinal: usize) -> ! {
-    if ordinal < 400 && std::env::var_os("LLVM_PROFILE_FILE").is_some() {
+    if ordinal < 200 && std::env::var_os("LLVM_PROFILE_FILE").is_some() {
         // SAFETY: single-threaded child; stdout was flushed before the fork
         unsafe { libc::exit(0) }
     }
@@ -657,8 +691,9 @@ fn run_seq_case(case: &str) {
 // ------------------------------------------------------------------------------------------
 // system-call generator
 
-const CLASSES: [&str; 10] =
-    ["clean", "mkparent", "dirwrite", "emfile", "dotdot", "chdirup", "dup2same", "opendir", "filedot", "lsfull"];
+const CLASSES: [&str; 11] = [
+    "clean", "mkparent", "dirwrite", "emfile", "dotdot", "chdirup", "dup2same", "opendir", "filedot", "lsfull", "pipes",
+];
 
 struct Gen {
     rng: Rng,
@@ -902,7 +937,18 @@ impl Gen {
                 let (path, _) = self.rel(target);
                 self.push_ls(&path)
             }
-            98 => self.ops.push("cwd".to_string()),
+            98 => {
+                let op = match self.rng.below(6) {
+                    0 => "cwd".to_string(),
+                    1 => "rlim".to_string(),
+                    2 => format!("nb {fd}"),
+                    _ => {
+                        self.upper += 2;
+                        "pipe".to_string()
+                    }
+                };
+                self.ops.push(op)
+            }
             _ => self.ops.push(format!("acc {fd}")),
         }
     }
@@ -968,6 +1014,20 @@ impl Gen {
                     self.upper += 1;
                 }
             }
+            "pipes" => {
+                let fd = self.some_fd();
+                let op = match self.rng.below(10) {
+                    0..=2 => {
+                        self.upper += 2;
+                        "pipe".to_string()
+                    }
+                    3..=5 => format!("write {fd} {}", self.data()),
+                    6..=7 => format!("read {fd} {}", self.rng.below(8)),
+                    8 => format!("close {fd}"),
+                    _ => format!("fstat {fd}"),
+                };
+                self.ops.push(op);
+            }
             "lsfull" => {
                 if self.upper < self.limit {
                     self.any_open();
@@ -985,6 +1045,7 @@ impl Gen {
 fn gen_seq(rng: &mut Rng, class: &'static str, thorough: bool) -> String {
     let limit = match class {
         "emfile" | "lsfull" => *rng.pick(&[4u64, 5, 6]),
+        "pipes" => *rng.pick(&[64u64, 12, 8, 5]),
         _ => *rng.pick(&[64u64, 64, 8, 12]),
     };
     let mut g = Gen { rng: rng.fork(), class, limit, cwd: vec![], upper: 3, ops: vec![] };
@@ -993,7 +1054,7 @@ fn gen_seq(rng: &mut Rng, class: &'static str, thorough: bool) -> String {
     g.clean_open();
     g.clean_open();
     for _ in 0..n {
-        if class != "clean" && g.rng.chance(1, 5) {
+        if class != "clean" && g.rng.chance(1, if class == "pipes" { 2 } else { 5 }) {
             g.special();
         } else {
             g.step();
@@ -1025,26 +1086,39 @@ fn gen_seq(rng: &mut Rng, class: &'static str, thorough: bool) -> String {
 // terminated P0 ends the observation with `DIED:s<SIG>`, otherwise the final state of P0 follows `|`.
 
 /// in increasing Linux signal number
-const PSIGS: [&str; NSIG] =
-    ["HUP", "INT", "QUIT", "KILL", "USR1", "USR2", "PIPE", "ALRM", "TERM", "CHLD", "URG", "WINCH"];
-const NSIG: usize = 12;
-const I_KILL: usize = 3;
-const I_CHLD: usize = 9;
+const PSIGS: [&str; NSIG] = [
+    "HUP", "INT", "QUIT", "ILL", "TRAP", "ABRT", "BUS", "FPE", "KILL", "USR1", "SEGV", "USR2", "PIPE", "ALRM", "TERM", "CHLD", "URG", "XCPU", "XFSZ", "VTALRM", "PROF", "WINCH", "IO", "SYS",
+];
+const NSIG: usize = 24;
+const I_KILL: usize = 8;
+const I_CHLD: usize = 15;
 
 fn signum<S: yash_env::system::Signals>(name: &str) -> Option<yash_env::signal::Number> {
     Some(match name {
         "HUP" => S::SIGHUP,
         "INT" => S::SIGINT,
         "QUIT" => S::SIGQUIT,
+        "ILL" => S::SIGILL,
+        "TRAP" => S::SIGTRAP,
+        "ABRT" => S::SIGABRT,
+        "BUS" => S::SIGBUS,
+        "FPE" => S::SIGFPE,
         "KILL" => S::SIGKILL,
+        "USR1" => S::SIGUSR1,
+        "SEGV" => S::SIGSEGV,
+        "USR2" => S::SIGUSR2,
         "PIPE" => S::SIGPIPE,
         "ALRM" => S::SIGALRM,
-        "WINCH" => S::SIGWINCH,
-        "USR1" => S::SIGUSR1,
-        "USR2" => S::SIGUSR2,
         "TERM" => S::SIGTERM,
         "CHLD" => S::SIGCHLD,
         "URG" => S::SIGURG,
+        "XCPU" => S::SIGXCPU,
+        "XFSZ" => S::SIGXFSZ,
+        "VTALRM" => S::SIGVTALRM,
+        "PROF" => S::SIGPROF,
+        "WINCH" => S::SIGWINCH,
+        "IO" => S::SIGIO?,
+        "SYS" => S::SIGSYS,
         _ => return None,
     })
 }
@@ -1324,29 +1398,37 @@ fn proc_real_p0(ops: &[String]) {
             libc::signal(signum::<RealSystem>(n).unwrap().as_raw(), libc::SIG_DFL);
         }
         libc::alarm(20);
+        let no_core = libc::rlimit { rlim_cur: 0, rlim_max: 0 };
+        libc::setrlimit(libc::RLIMIT_CORE, &no_core);
     }
     // SAFETY: the only RealSystem instance of this process
     let sys = unsafe { RealSystem::new() };
     for op in ops {
         if let Some(cops) = fork_body(op) {
             raw_write("{");
-            // SAFETY: single-threaded process
-            let pid = unsafe { libc::fork() };
-            if pid == 0 {
+            use yash_env::system::{Exit as _, Fork as _};
+            // `Fork::run_in_child_process` of RealSystem = fork(2); the child leaves through `Exit::exit`
+            let (res, _) = sys.run_in_child_process(cops, async move |csys: RealSystem, cops: Vec<String>| {
+                // SAFETY: watchdog
                 unsafe { libc::alarm(20) };
-                // SAFETY: the only RealSystem instance of the child process
-                let csys = unsafe { RealSystem::new() };
                 let mut code = 0;
                 for cop in &cops {
                     if let Some(n) = cop.strip_prefix("exit ") {
                         code = n.trim().parse().unwrap_or(0);
                         break;
                     }
-                    let t = futures_executor::block_on(sig_op(&csys, cop, &real_pending));
+                    let t = sig_op(&csys, cop, &real_pending).await;
                     raw_write(&format!("{},", t.unwrap_or_else(|| "?".into())));
                 }
-                unsafe { libc::_exit(code) };
-            }
+                csys.exit(yash_env::semantics::ExitStatus(code)).await;
+            });
+            let pid = match res {
+                Ok(pid) => pid.0,
+                Err(e) => {
+                    raw_write(&format!("}}{} ", errno_name(e)));
+                    continue;
+                }
+            };
             let st = loop {
                 match sys.wait(yash_env::job::Pid(pid)) {
                     Ok(Some((_, st))) => break show_wait::<RealSystem>(st),
@@ -1426,7 +1508,7 @@ struct SimProc {
 }
 
 const DEFAULT_IGNORED: [bool; NSIG] =
-    [false, false, false, false, false, false, false, false, false, true, true, true];
+    [false, false, false, false, false, false, false, false, false, false, false, false, false, false, false, true, true, false, false, false, false, true, false, false];
 
 impl SimProc {
     fn new() -> SimProc {
@@ -1599,7 +1681,12 @@ fn gen_proc(rng: &mut Rng, thorough: bool) -> String {
             }
             if rng.chance(1, 2) {
                 // make sure the parent often has a blocked, pending signal when it forks
-                let s = [0usize, 1, 2, 4, 5, 6, 7, 8, 9, 10, 11][rng.below(11)];
+                let s = loop {
+                    let s = rng.below(NSIG);
+                    if s != I_KILL {
+                        break s;
+                    }
+                };
                 p0.mask[s] = true;
                 p0.generate(s);
                 ops.push(format!("blk {}", PSIGS[s]));
@@ -2043,7 +2130,7 @@ fn main() {
     let mut rng = Rng::new(opts.seed ^ 0xC19C_19C1);
     let n_seq = if thorough { 100_000 } else { 2_400 };
     for i in 0..n_seq {
-        let class = if i % 5 < 3 { "clean" } else { CLASSES[1 + (i / 5) % 9] };
+        let class = if i % 5 < 3 { "clean" } else { CLASSES[1 + (i / 5) % 10] };
         let case = gen_seq(&mut rng, class, thorough);
         if mine(&mut index) {
             run_seq_case(&case);
